@@ -87,7 +87,7 @@ def monitor(ctx, case, o, label=""):
             ctx.violation("the set of compiled modules is not the set of modules reachable from the base", inp, sorted(reach), o)
         pos = {int(e[1:]): i for i, e in enumerate(comps)}
         for n in reach:
-            for t, _ in files[n][1]:
+            for t, _ in files.get(n, ('M', []))[1]:
                 if t in pos and n in pos and not pos[t] < pos[n]:
                     ctx.violation("a module is compiled before a module it imports", inp, "m%d before m%d" % (t, n), o)
     else:
